@@ -36,7 +36,7 @@ Fixpoint print_expr (e : expr) : text :=
   | BooleanLit b => if b then ts "true" else ts "false"
   | BoundParam n => 36 :: qi [n]
   | Call n args => n ++ [40] ++ join_with (ts ", ") (map print_expr args) ++ [41]
-  | Distinct v => ts "DISTINCT " ++ v
+  | Distinct v => ts "DISTINCT " ++ qi [v]
   | DurationLit d => format_duration d
   | IntegerLit i => dec i
   | UnsignedLit u => dec u
